@@ -87,12 +87,12 @@ TIER = "quick"
 def shapes(tier):
     out = []
     sizes = [(24, 24), (32, 48)] if tier == "quick" else \
-        [(24, 24), (32, 48), (64, 32), (128, 128)]
+        [(24, 24), (32, 48), (64, 32)]
     for o, i in sizes:
         for kind in ("read", "write"):
             for ca in (False, True):
                 m = i if kind == "read" else o
-                mx = m + 12 if tier == "quick" else m * 2 + 8
+                mx = m + 12 if tier == "quick" else m + 24
                 out.append((kind, o, i, ca, mx, False))
         out.append(("read", o, i, False, 12, True))
         out.append(("write", o, i, False, 12, True))
@@ -107,7 +107,7 @@ def worker(args):
             + (" +unrelated mail" if unrel else ""))
     try:
         st = pyrun.run("C16", name, make_harness(kind, o, i, ca, mx, unrel,
-                                                 2 if TIER == "quick" else 99),
+                                                 2 if TIER == "quick" else 3),
                        res, maxtime=600,
                        sig=lambda w: f"sdo_{kind}|" + w.split("(")[0].split(":")[0].strip()[:60])
         res["samples"].append(dict(harness=name, **{
@@ -123,9 +123,10 @@ def worker(args):
 def main(tier, replay_file=None):
     ck = common.Check(
         "C16", tier, "model_checking", FUNCTIONS,
-        bounds=dict(value_length="0 .. 2*mailbox+8 bytes (symbolic), content symbolic",
+        bounds=dict(value_length="0 .. mailbox+12 (thorough mailbox+24) bytes "
+                                 "(symbolic), content symbolic",
                     mailbox_sizes="(24,24), (32,48)" + ("" if tier == "quick"
-                                                        else ", (64,32), (128,128)"),
+                                                        else ", (64,32)"),
                     addressing="subindex (symbolic) and complete access",
                     server="response delay 0..1 polls per message; optional "
                            "unrelated (EoE) mail before a response; expedited "
